@@ -1144,6 +1144,20 @@ def _sessions():
     return server()["mod"].sessions
 
 
+def _light_catalog(raw):
+    """Ground truth of one instance through a raw DuckDB cursor, as cheap as it gets: every table (database, schema,
+    name, DuckDB's normalised CREATE text) and the rows of every table that is not fakesnow's own bookkeeping."""
+    tabs = raw.execute(
+        f"select database_name, schema_name, table_name, sql from duckdb_tables() where database_name not in {observe.SKIP} "
+        "and not internal order by all"
+    ).fetchall()
+    data = {}
+    for d_, s_, t_, _sql in tabs:
+        if not t_.startswith("_fs_"):
+            data[f"{d_}.{s_}.{t_}"] = tuple(map(repr, raw.execute(f'select * from "{d_}"."{s_}"."{t_}" order by all').fetchall()))
+    return tabs, data
+
+
 def ground_truth(live):
     """Per token: (python-side context, DuckDB current schema, variables, MARK tables of its instance, catalog digest)."""
     out = []
@@ -1156,15 +1170,15 @@ def ground_truth(live):
         st = observe.session_state(conn)
         raw = conn._duck_conn.cursor()  # noqa: SLF001
         try:
-            cat = observe.catalog(None, cur=raw)
+            tabs, data = _light_catalog(raw)
         finally:
             raw.close()
         marks = {}
-        for key, rows in cat["data"]:
+        for key, rows in data.items():
             dbn, sn, tn = key.split(".")
             if tn == "MARK" and dbn == DB:
                 marks[sn] = rows
-        out.append({"ctx": st[:5], "vars": dict(st[5]), "marks": marks, "digest": core.h(sorted(cat.items()))})
+        out.append({"ctx": st[:5], "vars": dict(st[5]), "marks": marks, "digest": core.h((tabs, sorted(data.items())))})
     return out, len(sess)
 
 
